@@ -19,7 +19,10 @@ SPEC = {'level': 'exploration',
                 rule='AddToBlockIndex header trees on a regtest node; nChainWork vs cpp_int sum over the naive ancestry'),
             gen('vh_c54', 'up_chain', 20000, 300000, rule="upstream fuzz target 'chain' (CDiskBlockIndex accessors, no model); supplementary"),
             gen('vh_c54', 'up_block_index_tree', 1500, 30000,
-                rule="upstream fuzz target 'block_index_tree' (block index / candidate-set invariants via CheckBlockIndex); supplementary")]}
+                rule="upstream fuzz target 'block_index_tree' (block index / candidate-set invariants via CheckBlockIndex); supplementary"),
+        # coverage-guided libFuzzer campaign on the same target (thorough tier only; fz tree = g++ trace-pc + covshim)
+        fuzz('vh_c54', 'c54_blockindex', 300, max_len=420),
+    ]}
 
 META = {'level_text': 'Generated block trees (36k per quick run, up to 6000 entries, spines up to 2000 blocks) queried through GetAncestor, LastCommonAncestor, '
                'CChain (SetTip reorg sequences, Contains/Next/FindFork/FindEarliestAtLeast) and LocatorEntries, each answer compared with a naive parent walk '
